@@ -29,7 +29,7 @@ ASSUMPTIONS = [
     "programs rejected by ppci with a CompilerError are discarded and counted (C28/C29 judge failures to compile)",
 ]
 TRUSTED = ["CPython", "Hypothesis", "gcc 12 + UBSan", "clang 14 + UBSan", "GNU ld", "the host CPU and Linux kernel", "vf/gencc.py"]
-REGISTER = False
+REGISTER = True
 TECHNIQUE = "differential: native execution of ppci-compiled programs (ppci linker and gcc/ld link paths, -O0/1/2/s) vs gcc -O0 output, Hypothesis-generated UB-free C programs"
 LEVEL_TEXT = (
     "Exploration with a differential oracle on real hardware: every generated defined-behaviour program is compiled by "
